@@ -42,3 +42,10 @@ func VerifC12TryDrainDone(c *Call) bool {
 		return false
 	}
 }
+
+// VerifC12Lock / VerifC12Unlock let the harness hold the servent mutex: while it is held no
+// RunCommand can run its clean-up and no ProcessResponse can look a call up, which is how the
+// schedule "the timer has won the select, a late reply takes the call out of pending, then the
+// clean-up runs" is forced (the responder queues up on the mutex first, the clean-up second).
+func (s *Servent) VerifC12Lock()   { s.mu.Lock() }
+func (s *Servent) VerifC12Unlock() { s.mu.Unlock() }
